@@ -40,7 +40,8 @@ CONSTANTS
   MaxHops,        \* redirects per fragment
   MaxBurst,       \* requests a client may have written but the proxy not yet read
   CanonKinds,     \* TRUE: nodes use "mix"/"nil" only where they differ from "ok" (model checking); FALSE: any (traces)
-  PoolAny         \* TRUE: MsgPool.Get may return any pooled object; FALSE: a canonical one (trace validation)
+  PoolAny,        \* TRUE: MsgPool.Get may return any pooled object; FALSE: a canonical one (trace validation)
+  MaxPause        \* how many times a client may stop reading (0: clients always read)
 
 VARIABLES
   nsent,    \* [client -> number of requests written so far]
@@ -48,6 +49,9 @@ VARIABLES
   cclosed,  \* [client -> the client has closed its end]
   copen,    \* [client -> conn.opened]
   closing,  \* [client -> conn.closing (QUIT seen, close after flush)]
+  cpaused,  \* [client -> the client does not read: the kernel buffers towards it are full, writes to it park]
+  obuf,     \* [client -> replies parked in the proxy's outbound buffer for it]
+  npause,   \* times clients have stopped reading so far
   inq,      \* [client -> inMsgQueue: seq of message objects]
   msg,      \* [object -> Msg]
   frag,     \* [fid -> Frag]
@@ -72,12 +76,12 @@ VARIABLES
   out,      \* events emitted by the proxy during the current iteration (what an observer sees)
   sched     \* environment choices so far (for replay)
 
-vars == <<nsent, cbuf, cclosed, copen, closing, inq, msg, frag, outfq, infq, sopen, sgen, tasks, ttree,
+vars == <<nsent, cbuf, cclosed, copen, closing, cpaused, obuf, npause, inq, msg, frag, outfq, infq, sopen, sgen, tasks, ttree,
           expired, bq, b2p, bclosed, nclose, hops, phase, ready, seen, efd, wcall, wread, halted, mon, out, sched>>
 
 \* sched is written, never read: the exhaustive runs hide it (VIEW) so that behaviours that differ only in
 \* the order of commuting environment choices are explored once
-view == <<nsent, cbuf, cclosed, copen, closing, inq, msg, frag, outfq, infq, sopen, sgen, tasks, ttree,
+view == <<nsent, cbuf, cclosed, copen, closing, cpaused, obuf, npause, inq, msg, frag, outfq, infq, sopen, sgen, tasks, ttree,
           expired, bq, b2p, bclosed, nclose, hops, phase, ready, seen, efd, wcall, wread, halted, mon, out>>
 
 NoRid == <<"", 0>>
@@ -117,6 +121,7 @@ Init ==
   /\ nsent = [c \in Clients |-> 0] /\ cbuf = [c \in Clients |-> <<>>]
   /\ cclosed = [c \in Clients |-> FALSE] /\ copen = [c \in Clients |-> TRUE]
   /\ closing = [c \in Clients |-> FALSE]
+  /\ cpaused = [c \in Clients |-> FALSE] /\ obuf = [c \in Clients |-> <<>>] /\ npause = 0
   /\ inq = [c \in Clients |-> <<>>]
   /\ msg = [m \in 1..MaxMsg |-> FreshMsg]
   /\ frag = <<>>
@@ -144,7 +149,7 @@ CliSend(c, r) ==
      /\ cbuf' = [cbuf EXCEPT ![c] = Append(@, <<i, r>>)]
      /\ mon' = MonApply(mon, [Ev0 EXCEPT !.ev = "send", !.c = c, !.i = i, !.k = r.k, !.slots = r.slots])
      /\ sched' = Append(sched, [op |-> "send", c |-> c, n |-> "", req |-> r, kind |-> "", cls |-> "", to |-> ""])
-  /\ UNCHANGED <<cclosed, copen, closing, inq, msg, frag, outfq, infq, sopen, sgen, tasks, ttree, expired,
+  /\ UNCHANGED <<cclosed, copen, closing, cpaused, obuf, npause, inq, msg, frag, outfq, infq, sopen, sgen, tasks, ttree, expired,
                  bq, b2p, bclosed, nclose, hops, phase, ready, seen, efd, wcall, wread, halted, out>>
 
 CliClose(c) ==
@@ -152,8 +157,24 @@ CliClose(c) ==
   /\ cclosed' = [cclosed EXCEPT ![c] = TRUE]
   /\ mon' = MonApply(mon, [Ev0 EXCEPT !.ev = "cclose", !.c = c])
   /\ sched' = Append(sched, [op |-> "cclose", c |-> c, n |-> "", req |-> [k |-> "", slots |-> <<>>], kind |-> "", cls |-> "", to |-> ""])
-  /\ UNCHANGED <<nsent, cbuf, copen, closing, inq, msg, frag, outfq, infq, sopen, sgen, tasks, ttree, expired,
+  /\ UNCHANGED <<nsent, cbuf, copen, closing, cpaused, obuf, npause, inq, msg, frag, outfq, infq, sopen, sgen, tasks, ttree, expired,
                  bq, b2p, bclosed, nclose, hops, phase, ready, seen, efd, wcall, wread, halted, out>>
+
+\* a client stops reading (the kernel buffers towards it fill up: from now on what the proxy writes to it parks in the
+\* connection's outbound buffer) / reads again
+CliPause(c) ==
+  /\ Env /\ npause < MaxPause /\ ~cpaused[c] /\ ~cclosed[c] /\ copen[c]
+  /\ cpaused' = [cpaused EXCEPT ![c] = TRUE] /\ npause' = npause + 1
+  /\ mon' = MonApply(mon, [Ev0 EXCEPT !.ev = "pause", !.c = c])
+  /\ sched' = Append(sched, [op |-> "pause", c |-> c, n |-> "", req |-> [k |-> "", slots |-> <<>>], kind |-> "", cls |-> "", to |-> ""])
+  /\ UNCHANGED <<nsent, cbuf, cclosed, copen, closing, obuf, inq, msg, frag, outfq, infq, sopen, sgen, tasks, ttree, expired,
+                 bq, b2p, bclosed, nclose, hops, phase, ready, seen, efd, wcall, wread, halted, out>>
+CliResume(c) ==
+  /\ Env /\ cpaused[c]
+  /\ cpaused' = [cpaused EXCEPT ![c] = FALSE]
+  /\ sched' = Append(sched, [op |-> "resume", c |-> c, n |-> "", req |-> [k |-> "", slots |-> <<>>], kind |-> "", cls |-> "", to |-> ""])
+  /\ UNCHANGED <<nsent, cbuf, cclosed, copen, closing, obuf, npause, inq, msg, frag, outfq, infq, sopen, sgen, tasks, ttree, expired,
+                 bq, b2p, bclosed, nclose, hops, phase, ready, seen, efd, wcall, wread, halted, mon, out>>
 
 \* what a node says about the keys of a fragment
 ValsFor(kind, len) == [x \in 1..len |-> IF kind = "nil" \/ (kind = "mix" /\ x % 2 = 0) \/ (kind = "mixe" /\ x % 3 = 0) THEN "nil"
@@ -188,7 +209,7 @@ BkAnswer(n, a) ==
                                         !.toks = FragToks(req, f, n, vals)]>>
                           \o [x \in DOMAIN rest[2] |-> [Ev0 EXCEPT !.ev = "answerauto", !.n = n, !.conn = Conn(n)]])
      /\ sched' = Append(sched, [op |-> "answer", c |-> "", n |-> n, req |-> [k |-> "", slots |-> <<>>], kind |-> kind, cls |-> cls, to |-> to])
-  /\ UNCHANGED <<nsent, cbuf, cclosed, copen, closing, inq, msg, frag, outfq, infq, sopen, sgen, tasks, ttree,
+  /\ UNCHANGED <<nsent, cbuf, cclosed, copen, closing, cpaused, obuf, npause, inq, msg, frag, outfq, infq, sopen, sgen, tasks, ttree,
                  expired, bclosed, nclose, phase, ready, seen, efd, wcall, wread, halted, out>>
 
 BkClose(n) ==
@@ -198,10 +219,11 @@ BkClose(n) ==
   /\ bq' = [bq EXCEPT ![n] = <<>>]        \* unanswered commands die with the connection
   /\ mon' = MonApply(mon, [Ev0 EXCEPT !.ev = "bclose", !.n = n, !.conn = Conn(n)])
   /\ sched' = Append(sched, [op |-> "bclose", c |-> "", n |-> n, req |-> [k |-> "", slots |-> <<>>], kind |-> "", cls |-> "", to |-> ""])
-  /\ UNCHANGED <<nsent, cbuf, cclosed, copen, closing, inq, msg, frag, outfq, infq, sopen, sgen, tasks, ttree,
+  /\ UNCHANGED <<nsent, cbuf, cclosed, copen, closing, cpaused, obuf, npause, inq, msg, frag, outfq, infq, sopen, sgen, tasks, ttree,
                  expired, b2p, hops, phase, ready, seen, efd, wcall, wread, halted, out>>
 
-ClientReady(c) == copen[c] /\ (cbuf[c] # <<>> \/ cclosed[c])
+Writable(c)    == copen[c] /\ obuf[c] # <<>> /\ ~cpaused[c] /\ ~cclosed[c]     \* EPOLLOUT: the client reads again and output is parked
+ClientReady(c) == (copen[c] /\ (cbuf[c] # <<>> \/ cclosed[c])) \/ Writable(c)
 NodeReady(n)   == sopen[n] /\ (b2p[n] # <<>> \/ bclosed[n])
 ReadyFds == {<<"c", c>> : c \in {x \in Clients : ClientReady(x)}} \cup {<<"s", n>> : n \in {x \in Nodes : NodeReady(x)}}
 
@@ -218,7 +240,7 @@ Expire(w) ==
                                             !.slots = <<ttree[j][3]>>])
   /\ efd' = IF w THEN TRUE ELSE efd
   /\ sched' = Append(sched, [op |-> "expire", c |-> "", n |-> "", req |-> [k |-> "", slots |-> <<>>], kind |-> IF w THEN "wake" ELSE "", cls |-> "", to |-> ""])
-  /\ UNCHANGED <<nsent, cbuf, cclosed, copen, closing, inq, msg, frag, outfq, infq, sopen, sgen, tasks, ttree,
+  /\ UNCHANGED <<nsent, cbuf, cclosed, copen, closing, cpaused, obuf, npause, inq, msg, frag, outfq, infq, sopen, sgen, tasks, ttree,
                  bq, b2p, bclosed, nclose, hops, phase, ready, seen, wcall, wread, halted, out>>
 
 \* something else signals the wake-up fd (in production the once-per-second probe; in the harness an explicit
@@ -226,7 +248,7 @@ Expire(w) ==
 Wake ==
   /\ Env /\ ~CanonKinds /\ ~efd
   /\ efd' = TRUE
-  /\ UNCHANGED <<nsent, cbuf, cclosed, copen, closing, inq, msg, frag, outfq, infq, sopen, sgen, tasks, ttree, expired,
+  /\ UNCHANGED <<nsent, cbuf, cclosed, copen, closing, cpaused, obuf, npause, inq, msg, frag, outfq, infq, sopen, sgen, tasks, ttree, expired,
                  bq, b2p, bclosed, nclose, hops, phase, ready, seen, wcall, wread, halted, mon, out, sched>>
 
 -----------------------------------------------------------------------------
@@ -241,7 +263,7 @@ StartIter ==
   /\ seen' = <<>> /\ out' = <<>> /\ wread' = FALSE
   /\ phase' = "cb"
   /\ sched' = Append(sched, [op |-> "iter", c |-> "", n |-> "", req |-> [k |-> "", slots |-> <<>>], kind |-> "", cls |-> "", to |-> ""])
-  /\ UNCHANGED <<nsent, cbuf, cclosed, copen, closing, inq, msg, frag, outfq, infq, sopen, sgen, tasks, ttree,
+  /\ UNCHANGED <<nsent, cbuf, cclosed, copen, closing, cpaused, obuf, npause, inq, msg, frag, outfq, infq, sopen, sgen, tasks, ttree,
                  expired, bq, b2p, bclosed, nclose, hops, efd, wcall, halted, mon>>
 
 \* the wake-up fd's turn among this iteration's events: read it; the task queue will run after the callbacks
@@ -250,7 +272,7 @@ ReadWake ==
   /\ ready' = ready \ {<<"W", "">>}
   /\ efd' = FALSE /\ wread' = TRUE
   /\ seen' = Append(seen, <<"W", "", 0>>)
-  /\ UNCHANGED <<nsent, cbuf, cclosed, copen, closing, inq, msg, frag, outfq, infq, sopen, sgen, tasks, ttree,
+  /\ UNCHANGED <<nsent, cbuf, cclosed, copen, closing, cpaused, obuf, npause, inq, msg, frag, outfq, infq, sopen, sgen, tasks, ttree,
                  expired, bq, b2p, bclosed, nclose, hops, phase, wcall, halted, mon, out, sched>>
 
 \* ---- MsgPool (sync.Pool): Get returns any pooled object or a new one
@@ -261,24 +283,37 @@ PoolGetChoices == LET pooled == {m \in 1..MaxMsg : ~msg[m].inuse /\ msg[m].poole
 PutReset(mr) == [FreshMsg EXCEPT !.pooled = TRUE]
 
 \* ---- the part of the heap that callbacks thread through helper operators
-Heap == [copen |-> copen, closing |-> closing, inq |-> inq, msg |-> msg, frag |-> frag, outfq |-> outfq,
+Heap == [copen |-> copen, closing |-> closing, obuf |-> obuf, inq |-> inq, msg |-> msg, frag |-> frag, outfq |-> outfq,
          infq |-> infq, sopen |-> sopen, sgen |-> sgen, tasks |-> tasks, ttree |-> ttree, bq |-> bq,
          b2p |-> b2p, bclosed |-> bclosed, efd |-> efd, wcall |-> wcall, evs |-> <<>>]
 SetHeap(h) ==
-  /\ copen' = h.copen /\ closing' = h.closing /\ inq' = h.inq /\ msg' = h.msg /\ frag' = h.frag
+  /\ copen' = h.copen /\ closing' = h.closing /\ obuf' = h.obuf /\ inq' = h.inq /\ msg' = h.msg /\ frag' = h.frag
   /\ outfq' = h.outfq /\ infq' = h.infq /\ sopen' = h.sopen /\ sgen' = h.sgen /\ tasks' = h.tasks
   /\ ttree' = h.ttree /\ bq' = h.bq /\ b2p' = h.b2p /\ bclosed' = h.bclosed
   /\ efd' = h.efd /\ wcall' = h.wcall
   /\ mon' = Fold(mon, h.evs) /\ out' = out \o h.evs
 Emit(h, e) == [h EXCEPT !.evs = Append(@, e)]
 
-\* a reply written to the client's socket; a client that has closed its end never reads it
-Write(h, c, rep) == IF cclosed[c] THEN h ELSE Emit(h, [Ev0 EXCEPT !.ev = "got", !.c = c, !.rep = rep])
+\* replies written to the client's socket (conn.write / conn.writev); a client that has closed its end never reads them.
+\* While the client does not read (the kernel takes nothing more) or while earlier output is still parked, they are
+\* appended to the connection's outbound buffer instead.
+GotEvs(c, reps) == [j \in DOMAIN reps |-> [Ev0 EXCEPT !.ev = "got", !.c = c, !.rep = reps[j]]]
+WriteAll(h, c, reps) ==
+  IF cclosed[c] THEN h
+  ELSE IF cpaused[c] \/ h.obuf[c] # <<>> THEN [h EXCEPT !.obuf[c] = @ \o reps]
+  ELSE [h EXCEPT !.evs = @ \o GotEvs(c, reps)]
+Write(h, c, rep) == WriteAll(h, c, <<rep>>)
 
 \* closeConn(client): the queue is dropped with the connection, messages are not recycled
+\* (closeConn first pushes what is parked in the outbound buffer: the kernel of a client that reads takes it, the
+\* kernel of a client that does not read takes nothing and the rest is dropped with the connection)
 CloseClient(h, c, byProxy) ==
-  LET h1 == [h EXCEPT !.copen[c] = FALSE, !.inq[c] = <<>>] IN
+  LET sent == IF cclosed[c] \/ cpaused[c] THEN <<>> ELSE GotEvs(c, h.obuf[c])
+      h1 == [h EXCEPT !.copen[c] = FALSE, !.inq[c] = <<>>, !.obuf[c] = <<>>, !.evs = @ \o sent] IN
   IF byProxy /\ ~cclosed[c] THEN Emit(h1, [Ev0 EXCEPT !.ev = "pclose", !.c = c]) ELSE h1
+\* closeQuit: a client that has sent QUIT is closed once nothing is owed to it any more
+CloseQuit(h, c) ==
+  IF h.copen[c] /\ h.closing[c] /\ h.inq[c] = <<>> /\ h.obuf[c] = <<>> THEN CloseClient(h, c, TRUE) ELSE h
 
 \* flushDone: write the replies of the completed messages at the head of the queue, release them
 RECURSIVE DonePrefixLen(_, _)
@@ -288,12 +323,9 @@ FlushDone(h, c) ==
   ELSE LET q == h.inq[c]
            k == DonePrefixLen(h, q)
        IN IF k = 0 THEN h
-          ELSE LET gots == IF cclosed[c] THEN <<>>
-                           ELSE [j \in 1..k |-> [Ev0 EXCEPT !.ev = "got", !.c = c, !.rep = h.msg[q[j]].rsp]]
-                   h1 == [h EXCEPT !.inq[c] = SubSeq(q, k + 1, Len(q)),
-                                   !.msg = [m \in 1..MaxMsg |-> IF \E j \in 1..k : q[j] = m THEN PutReset(h.msg[m]) ELSE h.msg[m]],
-                                   !.evs = @ \o gots]
-               IN IF h1.closing[c] /\ h1.inq[c] = <<>> THEN CloseClient(h1, c, TRUE) ELSE h1
+          ELSE LET h1 == [h EXCEPT !.inq[c] = SubSeq(q, k + 1, Len(q)),
+                                   !.msg = [m \in 1..MaxMsg |-> IF \E j \in 1..k : q[j] = m THEN PutReset(h.msg[m]) ELSE h.msg[m]]]
+               IN CloseQuit(WriteAll(h1, c, [j \in 1..k |-> h.msg[q[j]].rsp]), c)
 
 \* failFrag: complete the fragment's message with an error reply and flush its client
 FailFrag(h, f, txt) ==
@@ -351,14 +383,23 @@ Forward(c, i, m, m0, h0, order) ==
           THEN Write([h1a EXCEPT !.msg[m] = PutReset(m0)], c, urep)
           ELSE [h1a EXCEPT !.msg[m] = [m0 EXCEPT !.done = TRUE, !.rsp = urep], !.inq[c] = Append(@, m)]
 
+\* eventloop.write (EPOLLOUT comes first in the callback): what is parked goes out; a client that has sent QUIT and is
+\* owed nothing more is closed now
+CbClientWrite(c) ==
+  /\ phase = "cb" /\ <<"c", c>> \in ready /\ Writable(c)
+  /\ LET h1 == [Heap EXCEPT !.obuf[c] = <<>>, !.evs = GotEvs(c, obuf[c])] IN SetHeap(CloseQuit(h1, c))
+  /\ seen' = IF <<"c", c, 0>> \in SeqRange(seen) THEN seen ELSE Append(seen, <<"c", c, 0>>)
+  /\ ready' = IF copen'[c] /\ (cbuf[c] # <<>> \/ cclosed[c]) THEN ready ELSE ready \ {<<"c", c>>}
+  /\ UNCHANGED <<nsent, cpaused, npause, cbuf, cclosed, expired, nclose, hops, phase, wread, halted, sched>>
+
 CbClientReadOne(c) ==
-  /\ phase = "cb" /\ <<"c", c>> \in ready
+  /\ phase = "cb" /\ <<"c", c>> \in ready /\ ~Writable(c)
   /\ IF closing[c] THEN
        \* cread: QUIT was seen, whatever follows is ignored
        /\ cbuf' = [cbuf EXCEPT ![c] = <<>>]
        /\ ready' = ready \ {<<"c", c>>}
        /\ seen' = IF <<"c", c, 0>> \in SeqRange(seen) THEN seen ELSE Append(seen, <<"c", c, 0>>)
-       /\ UNCHANGED <<copen, closing, inq, msg, frag, outfq, infq, sopen, sgen, tasks, ttree, bq, b2p, bclosed, efd, wcall, mon, out>>
+       /\ UNCHANGED <<copen, closing, cpaused, obuf, npause, inq, msg, frag, outfq, infq, sopen, sgen, tasks, ttree, bq, b2p, bclosed, efd, wcall, mon, out>>
      ELSE IF cbuf[c] # <<>> THEN
        LET i == Head(cbuf[c])[1]
            r == Head(cbuf[c])[2]
@@ -380,8 +421,7 @@ CbClientReadOne(c) ==
                         THEN Write([h0 EXCEPT !.msg[m] = PutReset(m0)], c, lrep)
                         ELSE [h0 EXCEPT !.msg[m] = [m0 EXCEPT !.done = TRUE, !.rsp = lrep], !.inq[c] = Append(@, m)]
                   h2 == IF r.k # "quit" THEN h1
-                        ELSE IF h1.inq[c] # <<>> THEN [h1 EXCEPT !.closing[c] = TRUE]
-                        ELSE CloseClient(h1, c, TRUE)
+                        ELSE CloseQuit([h1 EXCEPT !.closing[c] = TRUE], c)
               IN /\ SetHeap(h2)
                  /\ cbuf' = [cbuf EXCEPT ![c] = IF r.k = "quit" THEN <<>> ELSE Tail(@)]
             ELSE
@@ -397,7 +437,7 @@ CbClientReadOne(c) ==
        /\ ready' = ready \ {<<"c", c>>}
        /\ seen' = IF <<"c", c, 0>> \in SeqRange(seen) THEN seen ELSE Append(seen, <<"c", c, 0>>)
        /\ UNCHANGED cbuf
-  /\ UNCHANGED <<nsent, cclosed, expired, nclose, hops, phase, wread, halted, sched>>
+  /\ UNCHANGED <<nsent, cpaused, npause, cclosed, expired, nclose, hops, phase, wread, halted, sched>>
 
 \* A write to a client that has already closed its end can fail (EPIPE / ECONNRESET, depending on when the
 \* kernel saw the reset): closeConn(c) then runs in the middle of cread and the rest of what was read is
@@ -408,7 +448,7 @@ ClientAbort(c) ==
   /\ cbuf' = [cbuf EXCEPT ![c] = <<>>]
   /\ ready' = ready \ {<<"c", c>>}
   /\ seen' = IF <<"c", c, 0>> \in SeqRange(seen) THEN seen ELSE Append(seen, <<"c", c, 0>>)
-  /\ UNCHANGED <<nsent, cclosed, expired, nclose, hops, phase, wread, halted, sched>>
+  /\ UNCHANGED <<nsent, cpaused, npause, cclosed, expired, nclose, hops, phase, wread, halted, sched>>
 
 -----------------------------------------------------------------------------
 RemoveFrom(seq, x) == SelectSeq(seq, LAMBDA e : e # x)
@@ -502,12 +542,12 @@ CbServerReadOne(n) ==
           IN SetHeap(h2)
        /\ ready' = ready \ {<<"s", n>>}
   /\ seen' = IF <<"s", n, sgen[n]>> \in SeqRange(seen) THEN seen ELSE Append(seen, <<"s", n, sgen[n]>>)
-  /\ UNCHANGED <<nsent, cbuf, cclosed, expired, nclose, hops, phase, wread, halted, sched>>
+  /\ UNCHANGED <<nsent, cpaused, npause, cbuf, cclosed, expired, nclose, hops, phase, wread, halted, sched>>
 
 EndCallbacks ==
   /\ phase = "cb" /\ ready = {}
   /\ phase' = IF wread THEN "tasks" ELSE "tmo"
-  /\ UNCHANGED <<nsent, cbuf, cclosed, copen, closing, inq, msg, frag, outfq, infq, sopen, sgen, tasks, ttree,
+  /\ UNCHANGED <<nsent, cbuf, cclosed, copen, closing, cpaused, obuf, npause, inq, msg, frag, outfq, infq, sopen, sgen, tasks, ttree,
                  expired, bq, b2p, bclosed, nclose, hops, ready, seen, efd, wcall, wread, halted, mon, out, sched>>
 
 \* the task queue: write signals (tasks triggered while the queue is being run are run in the same batch)
@@ -548,7 +588,7 @@ RunTasks ==
      \* redirect) is no longer expired
      /\ expired' = expired \ (SeqRange(h.ttree) \ SeqRange(ttree))
   /\ phase' = "tmo" /\ wread' = FALSE
-  /\ UNCHANGED <<nsent, cbuf, cclosed, nclose, hops, ready, seen, halted, sched>>
+  /\ UNCHANGED <<nsent, cpaused, npause, cbuf, cclosed, nclose, hops, ready, seen, halted, sched>>
 
 \* msgTimeout: scan the tree from the earliest deadline
 RECURSIVE Scan(_)
@@ -569,7 +609,7 @@ Scan(h) ==
 TimeoutScan ==
   /\ phase = "tmo"
   /\ LET h == Scan(Heap) IN
-     /\ copen' = h.copen /\ closing' = h.closing /\ inq' = h.inq /\ msg' = h.msg /\ frag' = h.frag
+     /\ copen' = h.copen /\ closing' = h.closing /\ obuf' = h.obuf /\ inq' = h.inq /\ msg' = h.msg /\ frag' = h.frag
      /\ outfq' = h.outfq /\ infq' = h.infq /\ sopen' = h.sopen /\ sgen' = h.sgen /\ tasks' = h.tasks
      /\ ttree' = h.ttree /\ bq' = h.bq /\ b2p' = h.b2p /\ bclosed' = h.bclosed
      /\ efd' = h.efd /\ wcall' = h.wcall
@@ -578,19 +618,22 @@ TimeoutScan ==
                         [Ev0 EXCEPT !.ev = "iter", !.seen = [j \in DOMAIN seen |-> IF seen[j][1] = "s" THEN [k |-> "s", n |-> <<seen[j][2], seen[j][3]>>]
                                                                         ELSE [k |-> seen[j][1], n |-> seen[j][2]]]])
   /\ phase' = "poll"
-  /\ UNCHANGED <<nsent, cbuf, cclosed, expired, nclose, hops, ready, seen, wread, halted, sched>>
+  /\ UNCHANGED <<nsent, cpaused, npause, cbuf, cclosed, expired, nclose, hops, ready, seen, wread, halted, sched>>
 
 \* the scenario ends once nothing can happen inside the proxy; the observer then concludes absence
 Quiesce ==
   /\ phase = "poll" /\ ~halted /\ ReadyFds = {} /\ ~efd
+  /\ \A c \in Clients : ~cpaused[c]          \* (a client that has stopped reading starts again before the scenario ends)
   /\ halted' = TRUE
   /\ mon' = MonApply(mon, [Ev0 EXCEPT !.ev = "quiesce"])
-  /\ UNCHANGED <<nsent, cbuf, cclosed, copen, closing, inq, msg, frag, outfq, infq, sopen, sgen, tasks, ttree,
+  /\ UNCHANGED <<nsent, cbuf, cclosed, copen, closing, cpaused, obuf, npause, inq, msg, frag, outfq, infq, sopen, sgen, tasks, ttree,
                  expired, bq, b2p, bclosed, nclose, hops, phase, ready, seen, efd, wcall, wread, out, sched>>
 
 Next ==
   \/ \E c \in Clients, r \in Menu : CliSend(c, r)
   \/ \E c \in Clients : CliClose(c)
+  \/ \E c \in Clients : CliPause(c) \/ CliResume(c)
+  \/ \E c \in Clients : CbClientWrite(c)
   \/ \E n \in Nodes, a \in AnswerKinds : BkAnswer(n, a)
   \/ \E n \in Nodes : BkClose(n)
   \/ \E w \in BOOLEAN : Expire(w)
